@@ -25,9 +25,9 @@ from .. import mc, tlc
 from ..common import allclose, fr, key, pin_repo
 from ..sched import ReplayScheduler
 
-WCCN_INV = ["MeanLookupByClassNotByValue", "ScatterDependsOnlyOnPartition", "SampleOrderInvariant",
+WCCN_INV = ["AffineLaw", "MeanLookupByClassNotByValue", "ScatterDependsOnlyOnPartition", "SampleOrderInvariant",
             "ScaledByClassCount"]
-WHIT_INV = ["MeanIsSampleMean", "CovIsSampleCov", "CentredHasZeroMean", "CentredCovUnchanged"]
+WHIT_INV = ["AffineLaw", "MeanIsSampleMean", "CovIsSampleCov", "CentredHasZeroMean", "CentredCovUnchanged"]
 LABEL_SETS = [(0, 1, 2), (5, 7, 9), (-3, -2, -1)]
 DEV_WCCN = "WCCN_MEAN_BY_LABEL_VALUE"
 DEV_WHIT = "WHITENING_BIASED_COV"
@@ -176,6 +176,12 @@ class WccnReplay:
             X = X + variant
             t = self.em.WCCN().fit(X, np.array(y))
             return np.asarray(t.weights, dtype=float), np.array([np.asarray(z, dtype=float) for z in t.transform(X)])
+        if kind == "numpy-units":
+            # the same samples in other units (Wccn.AffineLaw): W scales by 1 / s, the transformed data do not move;
+            # W is reported back in the original units
+            X = X * variant
+            t = self.em.WCCN().fit(X, np.array(y))
+            return np.asarray(t.weights, dtype=float) * variant, np.array([np.asarray(z, dtype=float) for z in t.transform(X)])
         chunks, ykind, sk = variant
         with dask.config.set(scheduler=scheduler(sk, self.rng)):
             Xd = da.from_array(X, chunks=chunks)
@@ -197,6 +203,8 @@ class WccnReplay:
         kinds = [("numpy", None)]
         if self.rng.random() < 0.3:
             kinds.append(("numpy-offset", float(self.rng.choice([1e5, -1e6, 3e6]))))
+        if self.rng.random() < 0.3:
+            kinds.append(("numpy-units", float(self.rng.choice([1e-6, 1e-5, 1e-4, 1e-2, 1e3]))))
         if with_dask:
             kinds.append(("dask", forced or dask_variant(self.rng, n, dm)))
         Wnp = None
@@ -204,7 +212,8 @@ class WccnReplay:
         for kind, variant in kinds:
             ck.replayed += 1
             ck.seen([scn, kind, variant])
-            tag = kind if variant is None else ("offset %g" % variant if kind == "numpy-offset"
+            tag = kind if variant is None else ("offset %g" % variant if kind == "numpy-offset" else
+                                                  "units x%g" % variant if kind == "numpy-units"
                                                   else "dask chunks=%s y=%s scheduler=%s" % variant)
             try:
                 W, Z = self.fit(rec, kind, variant)
@@ -327,6 +336,9 @@ def replay_whitening(ck, em, rec, rng, with_dask, forced=None):
     mean = np.array([float(fr(x)) for x in rec["mean"]])
     scn = {"data": rec["data"]}
     kinds = [("numpy", None)]
+    if rng.random() < 0.3:
+        # other units and another origin (Whitening.AffineLaw): W scales by 1 / s, the whitened data do not move
+        kinds.append(("numpy-units", (float(rng.choice([1e-6, 1e-5, 1e-4, 1e-2, 1e3])), float(rng.choice([0.0, 0.0, 1e3])))))
     if with_dask:
         chunks, _, sk = dask_variant(rng, n, dm)
         kinds.append(("dask", forced or (chunks, sk)))
@@ -335,7 +347,8 @@ def replay_whitening(ck, em, rec, rng, with_dask, forced=None):
     for kind, variant in kinds:
         ck.replayed += 1
         ck.seen([scn, "whitening", kind, variant])
-        tag = kind if variant is None else "dask chunks=%s scheduler=%s" % variant
+        tag = kind if variant is None else ("units x%g, origin moved by %g units" % variant if kind == "numpy-units"
+                                            else "dask chunks=%s scheduler=%s" % variant)
 
         def bad(clause, detail):
             ck.violation("M2:Whitening:" + clause,
@@ -348,6 +361,13 @@ def replay_whitening(ck, em, rec, rng, with_dask, forced=None):
                 W = np.asarray(t.weights, dtype=float)
                 mu = np.asarray(t.input_subtract, dtype=float)
                 Z = np.asarray(t.transform(X), dtype=float)
+            elif kind == "numpy-units":
+                sc, off = variant
+                Xs = (X + off) * sc
+                t = em.Whitening().fit(Xs)
+                W = np.asarray(t.weights, dtype=float) * sc           # back in the original units
+                mu = np.asarray(t.input_subtract, dtype=float) / sc - off
+                Z = np.asarray(t.transform(Xs), dtype=float)
             else:
                 with dask.config.set(scheduler=scheduler(variant[1], rng)):
                     t = em.Whitening().fit(da.from_array(X, chunks=variant[0]))
